@@ -886,3 +886,26 @@ Proof.
   pose proof (key_iff_selected_proof d l1 l2 rs C A1 A2) as K.
   rewrite !range_fields_spec_proof in K by exact C. rewrite <- K. split; [intros ->; reflexivity|intros E; injection E; auto].
 Qed.
+
+(* shard -f / dedupe -f / cache -k: lines with identical selected fields get the same key, hence the same shard,
+   the same dedupe decision and the same cache entry *)
+Theorem same_selected_same_key_proof s rs d l1 l2 n : nonul s -> parse_key_spec s = Some rs ->
+  contains_all (Z.of_nat (length (split_fields d l1))) rs ->
+  contains_all (Z.of_nat (length (split_fields d l2))) rs ->
+  select (split_fields d l1) rs = select (split_fields d l2) rs ->
+  shard_key l1 rs d = shard_key l2 rs d /\ dedupe_key l1 rs d = dedupe_key l2 rs d /\ cache_key_of l1 rs d = cache_key_of l2 rs d /\
+  (forall k1 k2, shard_key l1 rs d = Some k1 -> shard_key l2 rs d = Some k2 -> k1 mod n = k2 mod n).
+Proof.
+  intros N PK A1 A2 SEL. destruct (parse_key_spec_proof s rs N PK) as (rs0 & _ & _ & C & _).
+  pose proof (proj2 (key_iff_selected_proof d l1 l2 rs C A1 A2) SEL) as RF.
+  assert (forall seed, key_of seed l1 rs d = key_of seed l2 rs d) as K by (intros seed; unfold key_of; rewrite RF; reflexivity).
+  assert (dedupe_key l1 rs d = dedupe_key l2 rs d) as DK.
+  { unfold dedupe_key. destruct rs as [|[b e] [|r2 rest]]; try apply K; destruct b; try apply K.
+    destruct (e =? kInfiniteEnd) eqn:E; [|apply K].
+    (* whole-line shortcut: both equal the field-path key, which agree *)
+    apply Z.eqb_eq in E. subst e.
+    pose proof (proj1 (dedupe_shortcut_consistent_proof l1 d)) as S1. pose proof (proj1 (dedupe_shortcut_consistent_proof l2 d)) as S2.
+    unfold dedupe_key in S1, S2. rewrite Z.eqb_refl in S1, S2. rewrite S1, S2. apply K. }
+  unfold shard_key, cache_key_of. repeat split; try apply K; [exact DK|].
+  intros k1 k2 E1 E2. rewrite (K shard_seed) in E1. congruence.
+Qed.
